@@ -204,8 +204,8 @@ def ref_note(spec, S, basic=False):
 def ref_cell(spec, S, basic=False):
     k = spec['k']
     if k == 'v':
-        if spec['cat'] not in S or spec['cat'] == 'EMPTY':
-            return NULL
+        if spec['cat'] == 'EMPTY' or (spec['cat'] is not None and spec['cat'] not in S):
+            return NULL          # cat None = category not settled by the documentation: generated only in unfiltered exports
         return spec['out']
     if k == 'n':
         return ref_note(spec, S, basic)
